@@ -140,6 +140,15 @@ View ==
     LookBehind(S.toks),
     SubSeq(T.cs, Base + 1, TLen(T)), SubSeq(T.cc, Base + 1, TLen(T)), WinFrags>>
 
+\* Coarse view for generating the transition cover: configuration, look-behind classes and the
+\* first fragment of the unread window.  TLC then keeps one representative per (configuration,
+\* next fragment); exploration under it is not exhaustive, it is an input generator.
+CoverView ==
+  <<S.modes, S.pend, S.nest, S.fault, phase, eof, S.ck.set,
+    IF S.ck.set THEN <<S.ck.ml, LookBehind(SubSeq(S.toks, 1, S.ck.nt))>> ELSE <<>>,
+    LookBehind(S.toks),
+    Len(WinFrags), IF WinFrags = <<>> THEN <<>> ELSE SubSeq(T.cs, Base + 1, Base + WinFrags[1])>>
+
 Bounds ==
   /\ Len(S.modes) <= MaxStack
   /\ Len(WinFrags) <= MaxWindow          \* fragments in the unread window
@@ -171,6 +180,10 @@ Progress == [][(phase = "lex" /\ phase' = "lex" /\ S' # S) => ~(S'.pos = S.pos /
 
 \* ---- transition cover: one line per distinct state (BFS: a shortest input reaching it)
 Cover ==
-  ~Emit1 \/ phase # "lex" \/ Eof(T, S.pos) \/
+  ~Emit1 \/ phase # "lex" \/ Eof(T, S.pos) \/ Len(WinFrags) # 1 \/ S.ops = <<>> \/
+  PrintT(<<"REPLAY", ToJson([cs |-> T.cs, cc |-> T.cc])>>)
+\* every (configuration, next fragment) pair: the state right after a step, one fragment unread
+CoverAll ==
+  ~Emit1 \/ phase # "lex" \/ Eof(T, S.pos) \/ Len(WinFrags) # 1 \/
   PrintT(<<"REPLAY", ToJson([cs |-> T.cs, cc |-> T.cc])>>)
 =============================================================================
